@@ -190,8 +190,14 @@ impl<T: TrustProvider> TrustAwarePeerSelector<T> {
             })
             .collect();
 
-        // Sort by score descending (higher is better)
-        scored.sort_by(|a, b| b.1.total_cmp(&a.1));
+        // Sort by score descending (higher is better). The score only sees the
+        // top 16 id bytes squashed into an f64, so peers whose ids are close to
+        // each other tie; break ties on the full XOR distance (closer first).
+        scored.sort_by(|a, b| {
+            b.1.total_cmp(&a.1).then_with(|| {
+                full_xor_distance(key, &a.0.id).cmp(&full_xor_distance(key, &b.0.id))
+            })
+        });
 
         // Take top `count` peers
         scored
@@ -262,6 +268,18 @@ fn xor_distance(key: &DhtKey, node_id: &NodeId) -> u128 {
     let mut distance: u128 = 0;
     for i in 0..16 {
         distance = (distance << 8) | ((key_bytes[i] ^ node_bytes[i]) as u128);
+    }
+    distance
+}
+
+/// Full 256-bit XOR distance between a key and a node ID (big-endian byte order).
+fn full_xor_distance(key: &DhtKey, node_id: &NodeId) -> [u8; 32] {
+    let mut distance = [0u8; 32];
+    for (out, (k, n)) in distance
+        .iter_mut()
+        .zip(key.as_bytes().iter().zip(node_id.as_bytes().iter()))
+    {
+        *out = k ^ n;
     }
     distance
 }
